@@ -657,7 +657,7 @@ def fam_retrygrid(out, tier, rnd):
     def mid_of(w):
         return next((e["mid"] for e in w.lines[-1]["fx"] if e["k"] == "ret"), -1)
     for kind in kinds:
-        sizes = ((0, 10, 1000, 20000) if tier == "thorough" else (10, 1000)) if kind.startswith("pub") else (0,)
+        sizes = ((0, 10, 1000, 4000) if tier == "thorough" else (10, 1000)) if kind.startswith("pub") else (0,)
         for ver in (3, 4):
             for T in timeouts:
                 for bw in bws:
